@@ -1,8 +1,31 @@
-import PyGam.Drv.Common
+import PyGam.Model.Predict
+import PyGam.Drv.TermParse
 namespace PyGam.Drv.C02
 open PyGam PyGam.Drv
 
-/-- operations of the C02 model driver (`C02 <op> <args…>`); `none` ↦ `bad-op` -/
-def handle : List String → Option String
+/-- operations of the C02 model driver
+* `lp <terms> | <coef…> | <x…>`      → `lp pdep_0 … pdep_{k-1}` (exact rationals)
+* `grid <i> <n> <m_features> <terms>` → rows of `generate_X_grid(term=i, n=n)`, `;`-separated -/
+def handle (toks : List String) : Option String :=
+  match toks with
+  | "lp" :: rest =>
+    match splitBar rest with
+    | [ts, cs, xs] => do
+        let (terms, r) ← pTerms ts
+        if r ≠ [] then none else
+        let c ← parseRats? cs
+        let x ← parseRats? xs
+        if c.length ≠ nCoefsAll terms then none else
+        let lp := linPred epsRat terms (listToVec c) (listToVec x)
+        let pds := (List.range terms.length).map (fun i => partialDep epsRat terms i (listToVec c) (listToVec x))
+        some (showRatList (lp :: pds))
+    | _ => none
+  | "grid" :: i :: n :: m :: rest => do
+      let i ← i.toNat?; let n ← n.toNat?; let m ← m.toNat?
+      let (terms, r) ← pTerms rest
+      if r ≠ [] then none else
+      let t ← terms[i]?
+      let rows := (List.range (gridSize t n)).map (fun r => vecToList m (gridRow t n r))
+      some (showMatRat rows)
   | _ => none
 end PyGam.Drv.C02
